@@ -245,6 +245,13 @@ CHECKS["C19"]["text"] += " Search-domain labels with multi-byte characters aroun
 # ---- additions of seed round 16
 CHECKS["C11"]["text"] += " Malformed message types: option 53 of 0, 2 or 3 octets and repeated instances (12 shapes x position) under every chain are never answered."
 CHECKS["C13"]["text"] += " Eighth handler behaviour: a nil response without stop (the chain goes on; a later handler may build a fresh response, which is then what is sent)."
+# ---- additions of seed round 17
+CHECKS["C01"]["text"] += " Environment deviation 'log level': all seeds under every chain also with the process-wide log level at debug and at trace."
+CHECKS["C02"]["text"] += " Hardware addresses of every length 0..16 and number-like one-byte ones, with a restart after every reply, also in the quick tier."
+CHECKS["C04"]["text"] += " Blocks returned wider than one allocation block are tracked: they overlap every neighbour they cover."
+CHECKS["C15"]["text"] += " The reply's own giaddr and ciaddr as left by a plugin (as handed, zeroed, another value; same or fresh object): the cascade reads the request."
+CHECKS["C16"]["text"] += " Scenarios S1g/S1h: Release / Confirm / Solicit with two hinted IA_PDs each and crossed hints on a 2-block pool."
+CHECKS["C19"]["text"] += " Prefix pools of /120 and /128 with delegation lengths 129..256."
 ALL = ["C%02d" % i for i in range(1, 21)]
 NA_REASON = "check not built yet in this session (planned, see DESIGN.md section 5); will be claimed once its machinery exists"
 m = {
